@@ -12,6 +12,7 @@ Driver for C16.  IDs are `mid.rid`; lists are `,`-separated, `-` = empty.
   fetch <ids> <order> <behav>           behav `|`-separated `<src>:x` (open failed) | `<src>:<evs>`
   uniq <docs>
   full <hot> <cold> <offset> <size> <rev> <src 0|1> <hint> <fetch 0|1> <order> <behav>
+  api <hot> <cold> <offset> <size> <rev> <hint> <order> <behav>     the same through proxyapi Search
 -/
 open SV SV.Proto SV.ProxySearch SV.DocsMerge SV.ProxyRead
 
@@ -185,6 +186,16 @@ def step (line : String) : String :=
       | .ok ids t e p c docs =>
         s!"ok partial={fmtBool p} cold={fmtBool c} total={t} nerr={e} ids={fmtTagged src ids} docs={fmtDocs docs}"
     | _, _, _, _, _, _, _, _, _, _ => "bad-op"
+  | ["api", hot, cold, off, sz, rev, hint, order, behav] =>
+    match parseArrival hot, parseArrival cold, off.toNat?, sz.toNat?, bool? rev, hint.toNat?,
+      natList? order, parseBehav behav with
+    | some h, some c, some off, some sz, some rev, some hint, some order, some b =>
+      match api (searchAndFetch h c off sz rev hint true order (behavFn b)) with
+      | .status ia => if ia then "err invalid-argument" else "err internal"
+      | .refused => "ok refused tmf"
+      | .panic => "panic"
+      | .resp ids docs p t => s!"ok partial={fmtBool p} total={t} ids={fmtIDs ids} docs={fmtNats docs}"
+    | _, _, _, _, _, _, _, _ => "bad-op"
   | _ => "bad-op"
 
 def main : IO Unit := SV.Proto.main step
